@@ -16,7 +16,7 @@ RULE = ("[cold start] fresh interpreters whose very first parses run on 8 thread
         "sustain tuples (forces lru eviction), charts with many plain text events vs. charts with sections and lyrics, charts stating many optional [Song] fields vs. charts stating none, and "
         "charts of every failure class (missing section, bad header, MissingRequiredField, bad Player2 after other fields, forced first note, zero tempo, unordered tempo); "
         "(i) each text is parsed in a FRESH interpreter (one subprocess each); (ii) the texts are parsed in this process in random orders with repetitions (2-3 passes), failing texts "
-        "interleaved; (iii) 8 threads parse texts concurrently (switch interval 1 us, barrier start); every in-process / threaded result is compared inside Coq with the fresh-interpreter "
+        "interleaved, followed by 700 (thorough: 7000) further round-robin parses with nothing kept alive (only results whose rendering differs from the fresh one, and one per text, go to Coq); (iii) 8 threads parse texts concurrently (switch interval 1 us, barrier start); every in-process / threaded result is compared inside Coq with the fresh-interpreter "
         "result of the same text and with the model; a chart parsed again from the same text must also be == (both ways) to the first one, which has meanwhile been looked at (derived attributes, a rate query, str/repr). Non-trivial: every in-process parse that is preceded by at least one parse of a different text; distinct by (text, position in history)")
 ASSUMPTIONS = ["thread pre-emption inside the interpreter and fresh-interpreter equality cannot be exhibited by a Gallina model; they are exercised by this correspondence only (the theorems cover "
                "all histories and all interleavings at memoised-call granularity, with arbitrary eviction)"]
@@ -201,6 +201,21 @@ def run(ctx, only=None):
                     look_at(ch)
             cases.append(make(text, want, fr[i], out, mode, pos))
             pos += 1
+    # churn: many more parses, round-robin over the texts, nothing kept alive (objects are freed and their addresses reused: a table
+    # keyed by id() or by anything else that outlives its owner shows here); a result is sent to Coq only if its rendering differs from
+    # the fresh one (equal renderings are equal terms), plus one agreeing sample per text
+    if not only:
+        seen_ok = set()
+        n_churn = 0
+        for k in range(700 if quick else 7000):
+            i = (k * 7 + k // len(texts)) % len(texts)
+            text, want = texts[i]
+            _, _, out = parse_case(text, want)
+            n_churn += 1
+            if out != fr[i] or i not in seen_ok:
+                seen_ok.add(i)
+                cases.append(make(text, want, fr[i], out, "churn", pos))
+                pos += 1
     # threads: only texts whose fresh result has no log records
     quiet = [i for i in range(len(texts)) if fr[i].startswith("(Err") or fr[i].rstrip().endswith(", []))")]
     quiet = quiet[:20] if quick else quiet[:80]
